@@ -381,7 +381,7 @@ def pairUp (c : Cand) (a : Agent) (l : Cand) : Agent :=
 
 /-- … and the new candidate is paired with every local candidate of its network type that has no pair with it -/
 def arcA4 (a : Agent) (c : Cand) : Agent :=
-  ((arcA3 a c).locals.filter fun (x : Cand) => x.net == (arcC a c).net).foldl (pairUp (arcC a c)) (arcA3 a c)
+  ((arcA3 a c).locals.filter fun (x : Cand) => x.net == (arcC a c).net && (arcC a c).tt != 2).foldl (pairUp (arcC a c)) (arcA3 a c)
 
 theorem arc_eq (a : Agent) (c : Cand) (hb : a.cfg.blockedIPs.contains (ipOf c.addr) = false)
     (hf : (a.remotes.filter (·.net == c.net)).find? (·.equal c) = none) :
@@ -436,7 +436,17 @@ theorem arcReplaced_mem {a : Agent} {c e : Cand} (h : e ∈ arcReplaced a c) :
     rw [List.mem_filter] at h
     obtain ⟨h1, h2⟩ := h
     simp [arcC0, Cand.taEqual] at h2 hty
-    exact ⟨h1, h2.1.1, h2.1.2, h2.2.2, hty⟩
+    exact ⟨h1, h2.1.1, h2.1.2, h2.2.1.2, hty⟩
+
+/-- a superseded candidate carries the tcptype of the superseding one (`transportAddressEqual` compares it) -/
+theorem arcReplaced_tt {a : Agent} {c e : Cand} (h : e ∈ arcReplaced a c) : e.tt = c.tt := by
+  unfold arcReplaced at h
+  split at h
+  · cases h
+  · rw [List.mem_filter] at h
+    obtain ⟨_, h2⟩ := h
+    simp [arcC0, Cand.taEqual] at h2
+    exact h2.2.2.1
 
 /-- uids of the superseded candidates -/
 def arcS (a : Agent) (c : Cand) : List Nat := (arcReplaced a c).map (·.uid)
@@ -608,11 +618,11 @@ theorem arcA4_spec {a : Agent} (h : Inv a) (c : Cand) (hc : a.closed = false)
         rw [core_uid, arcC_uid] at heu
         simp at this; omega
     rw [this]; rfl
-  have := pairUp_fold (arcC a c) ((arcA3 a c).locals.filter fun x => x.net == (arcC a c).net) (arcA3 a c) h3 hcm
+  have := pairUp_fold (arcC a c) ((arcA3 a c).locals.filter fun x => x.net == (arcC a c).net && (arcC a c).tt != 2) (arcA3 a c) h3 hcm
     (by
       intro l hl
       rw [List.mem_filter] at hl
-      exact ⟨mem_lcsOf hl.1, by simpa using hl.2⟩)
+      exact ⟨mem_lcsOf hl.1, by have := hl.2; simp only [Bool.and_eq_true, beq_iff_eq] at this; exact this.1⟩)
   exact ⟨this.1, this.2, hcm⟩
 
 /-- `addRemoteCandidate` preserves the invariant; an accepted candidate is a current remote candidate afterwards -/
@@ -635,7 +645,7 @@ theorem Inv.addRemoteCandidate {a : Agent} (h : Inv a) (c : Cand) (hc : a.closed
       have he := List.find?_some hf
       rw [List.mem_filter] at hm
       simp [Cand.equal, Cand.taEqual] at he
-      exact ⟨mem_rcsOf hm.1, by simpa using hm.2, he.1.1.2⟩
+      exact ⟨mem_rcsOf hm.1, by simpa using hm.2, he.1.1.1.2⟩
     | none =>
       rw [arc_eq a c hb hf]
       obtain ⟨h1, h2, h3⟩ := arcA4_spec h c hc hb hf
